@@ -237,7 +237,8 @@ def execute(case, scratch):
                 return {"verdict": "violation", "stats": stats,
                         "violation": {"class": "printed_totals_differ",
                                       "detail": {"printed": totals, "issued": want}}}
-        return {"verdict": "ok", "stats": stats, "nontrivial": nev > 0}
+        return {"verdict": "ok", "stats": stats, "nontrivial": nev > 0,
+                "obs_digest": core.jdigest([obs["attr"], sorted(obs["events"])])}
     finally:
         W.cleanup(top)
 
